@@ -167,7 +167,7 @@ structure DumpSt where
 
 def stepItem (s : DumpSt) : DItem → DumpSt
   | .time t => { cols := s.cols.map (fun p => (p.1, p.2.copyLast)), ts := s.ts ++ [t] }
-  | .change id v => { s with cols := s.cols.map (fun p => if p.1 == id then (p.1, p.2.setLast v) else p) }
+  | .change id v => { s with cols := s.cols.map (fun p => (p.1, if p.1 == id then p.2.setLast v else p.2)) }
   | .skip => s
 
 def distinctIds (ds : List VDecl) : List String := dedup (ds.map (·.id))
